@@ -454,26 +454,22 @@ impl RdfStore {
         if let Some(tx) = tx_id {
             let buffer = self.tx_buffer.read();
             if let Some(ops) = buffer.buffers.get(&tx) {
-                // Collect pending deletes
-                let pending_deletes: FxHashSet<&Triple> = ops
-                    .iter()
-                    .filter_map(|op| match op {
-                        PendingOp::Delete(t) => Some(t),
-                        _ => None,
-                    })
-                    .collect();
-
-                // Filter out pending deletes from committed results
-                if !pending_deletes.is_empty() {
-                    results.retain(|t| !pending_deletes.contains(t.as_ref()));
-                }
-
-                // Include pending inserts
+                // Replay the buffered operations in order over the committed matches,
+                // with set semantics, so the transaction sees exactly what its commit
+                // would produce: a re-inserted triple is not listed twice and a triple
+                // inserted and then deleted again is gone.
                 for op in ops {
-                    if let PendingOp::Insert(triple) = op
-                        && pattern.matches(triple)
-                    {
-                        results.push(Arc::new(triple.clone()));
+                    match op {
+                        PendingOp::Insert(triple) => {
+                            if pattern.matches(triple)
+                                && !results.iter().any(|t| t.as_ref() == triple)
+                            {
+                                results.push(Arc::new(triple.clone()));
+                            }
+                        }
+                        PendingOp::Delete(triple) => {
+                            results.retain(|t| t.as_ref() != triple);
+                        }
                     }
                 }
             }
